@@ -47,6 +47,11 @@ def check(ctx):
     # ---- postponed queue ----
     n = core.adopt(ctx, c02, lambda o: o["rule"] == "C02.c" and any(k in o["key"] for k in ("discard", "detached-queue", "replay-present", "::replay:")), "C11.queue")
     ctx.floor("C11.queue", n, 5, "shared queue obligations")
+    # the queue methods themselves: detach returns the whole queue and leaves it empty, attach puts the argument *behind* what
+    # was queued meanwhile (an entry pushed between detach and attach must survive), spare buffers are stored empty (C12.b)
+    import c12 as _c12
+    nq = core.adopt(ctx, _c12, lambda o: o["rule"] == "C12.b", "C11.queue")
+    ctx.floor("C11.queue", nq, 4, "shared queue-method contracts (C12.b)")
     q = A.names(prog)["queue_type"]
     qusers = set()
     for body in prog.bodies:
